@@ -329,7 +329,11 @@ def run_property(pid, tier, seed):
                 tail = open(r["log"], errors="replace").read()[-3000:]
             except OSError:
                 pass
-            if r["rc"] == 124 or r["rc"] == 131 or r["rc"] == -3:
+            if r["rc"] in (-9, 137):
+                # SIGKILL: the kernel's out-of-memory killer or an outer supervisor ended the harness process; nothing
+                # was observed about the code under test
+                inconclusive.append("%s shard %d was killed (SIGKILL, rc=%s): out of memory or outer timeout" % (r["part"], r["shard"], r["rc"]))
+            elif r["rc"] == 124 or r["rc"] == 131 or r["rc"] == -3:
                 inconclusive.append("watchdog fired for %s shard %d (rc=%s)" % (r["part"], r["shard"], r["rc"]))
             else:
                 # the harness process died without a result: attribute to the input it logged last
